@@ -373,6 +373,83 @@ def gen_pyfile(rng, codemods, layout):
     return text
 
 
+# ---- dependency manifests: text variants of the four kinds -------------------------------------
+# what follows the last content line (which is written without a terminator)
+TAILS = ["", "\n", "\n", "\n", "\n\n", "\n\n\n", "\n    \n", "\n\t\n\n", "\n\n# end of file\n", "\n# end", "\n \n"]
+REQ_POOL = ["requests>=2.0", "flask", "# pinned", "click==8.1.7", 'flask-cors>=3; python_version >= "3.8"', "",
+            "# dev tools live elsewhere", "  ", "urllib3<3  # transitive", "Jinja2"]
+
+
+def gen_requirements(rng):
+    n = rng.randint(1, 6)
+    body = ["requests>=2.0"] + [rng.choice(REQ_POOL) for _ in range(n - 1)]
+    tail = rng.choice(TAILS)
+    return "\n".join(body) + tail, f"req[{n}]tail={tail!r}"
+
+
+def gen_pyproject(rng):
+    style = rng.choice(["multi", "multi", "inline", "poetry"])
+    head = rng.choice([[], ["[build-system]", 'requires = ["setuptools"]', ""], ["# packaging", ""]])
+    if style == "multi":
+        deps = ['    "requests>=2.0",'] + [rng.choice(['    "flask",', '    "click==8.1.7",  # pinned', '    # web', '    "Jinja2",'])
+                                           for _ in range(rng.randint(0, 3))]
+        body = ["[project]", 'name = "demo"', 'version = "1.0"', "dependencies = ["] + deps + ["]"]
+    elif style == "inline":
+        body = ["[project]", 'name = "demo"', 'version = "1.0"', rng.choice(['dependencies = ["requests>=2.0"]',
+                                                                          'dependencies = ["requests>=2.0", "flask"]'])]
+    else:
+        body = ["[tool.poetry]", 'name = "demo"', 'version = "1.0"', "", "[tool.poetry.dependencies]", 'python = "^3.9"',
+                'requests = "^2.0"']
+    after = rng.choice([[], [], ["", "[tool.black]", "line-length = 100"], ["", "# trailing comment"]])
+    tail = rng.choice(TAILS)
+    return "\n".join(head + body + after) + tail, f"pyproject[{style}]tail={tail!r}"
+
+
+def gen_setupcfg(rng):
+    style = rng.choice(["multi", "multi", "inline"])
+    head = ["[metadata]", "name = demo", "version = 1.0", ""]
+    if style == "multi":
+        deps = ["    requests>=2.0"] + [rng.choice(["    flask", "    click==8.1.7", "    Jinja2"]) for _ in range(rng.randint(0, 3))]
+        body = ["[options]", "packages = find:", "install_requires ="] + deps
+    else:
+        body = ["[options]", rng.choice(["install_requires = requests>=2.0, flask", "install_requires = requests>=2.0"])]
+    after = rng.choice([[], [], ["", "[options.extras_require]", "dev =", "    pytest"], ["", "# trailing comment"]])
+    tail = rng.choice(TAILS)
+    return "\n".join(head + body + after) + tail, f"setupcfg[{style}]tail={tail!r}"
+
+
+def gen_setup_py(rng, triggers):
+    """setup.py as the manifest; `triggers` (codemod ids) put their trigger blocks into setup.py itself"""
+    I = "    "
+    lines = ["from setuptools import setup"]
+    for k in triggers:
+        imp = BLOCKS[k][0]
+        if imp and imp not in lines:
+            lines.append(imp)
+    lines.append("")
+    cnt = 0
+    for k in triggers:
+        cnt += 1
+        lines += [l.format(n=f"M{cnt}", I=I) for l in BLOCKS[k][1]]
+        lines += [""] * rng.choice([0, 1, 2, 5, 8])
+    style = rng.choice(["multi", "multi", "inline", "single"])
+    if style == "multi":
+        deps = [I * 2 + '"requests>=2.0",'] + [I * 2 + rng.choice(['"flask",', '"click==8.1.7",', '"Jinja2",'])
+                                                for _ in range(rng.randint(0, 3))]
+        lines += ["setup(", I + 'name="demo",', I + 'version="1.0",', I + "install_requires=["] + deps + [I + "],", ")"]
+    elif style == "inline":
+        lines += ["setup(", I + 'name="demo",', I + 'install_requires=["requests>=2.0", "flask"],', ")"]
+    else:
+        lines += ['setup(name="demo", install_requires=["requests>=2.0"])']
+    tail = rng.choice(["\n", "\n", "", "\n\n", "\n# end\n"])
+    return "\n".join(lines) + tail, f"setup.py[{style};triggers={len(triggers)}]tail={tail!r}"
+
+
+MANIFEST_KINDS = ["requirements.txt", "requirements.txt", "requirements.txt", "setup.py", "setup.py", "setup.py",
+                  "pyproject.toml", "pyproject.toml", "setup.cfg", "setup.cfg", None]
+DEP_FAST = [P + "use-defusedxml", P + "harden-pickle-load"]
+
+
 def gen_project(rng, known_ok=False):
     """-> (files: relpath -> bytes, codemod sequence, description)"""
     seq_pool = list(FAST)
@@ -380,10 +457,27 @@ def gen_project(rng, known_ok=False):
     seq = rng.sample(seq_pool, min(nseq, len(seq_pool)))
     if rng.random() < 0.12:
         seq.insert(rng.randrange(len(seq) + 1), rng.choice(SEMGREP))
+    manifest = rng.choice(MANIFEST_KINDS)
+    order = "any"
+    if manifest and rng.random() < 0.8:
+        # a dependency-adding codemod is part of the sequence: first, last, or anywhere
+        adders = [k for k in seq if k in DEP_ADDING] or [rng.choice(DEP_FAST)]
+        seq = [k for k in seq if k not in DEP_ADDING]
+        order = rng.choice(["adder_first", "adder_first", "adder_last", "any"])
+        if order == "adder_first":
+            seq = adders + seq
+        elif order == "adder_last":
+            seq = seq + adders
+        else:
+            for k in adders:
+                seq.insert(rng.randrange(len(seq) + 1), k)
+        if len(seq) == 1 and rng.random() < 0.7:     # something else to run after/before the adder
+            other = rng.choice([k for k in FAST if k not in DEP_ADDING])
+            seq = seq + [other] if order != "adder_last" else [other] + seq
     files, desc = {}, []
     nfiles = rng.randint(2, 4)
     names = ["a.py", "pkg/b.py", "pkg/sub/c.py", "d.py"][:nfiles]
-    for nm in names:
+    for idx, nm in enumerate(names):
         special = None
         r = rng.random()
         if known_ok and r < 0.25:
@@ -394,6 +488,8 @@ def gen_project(rng, known_ok=False):
             layout["eol"], layout["special"] = "cr", None
         # each file triggers a random subset of the sequence plus possibly codemods that are not selected
         here = [k for k in seq if rng.random() < 0.7] or [seq[0]]
+        if idx == 0:
+            here = list(dict.fromkeys(here + [k for k in seq if k in DEP_ADDING]))   # the adders do fire somewhere
         extra = [k for k in FAST if k not in seq and rng.random() < 0.15]
         files[nm] = gen_pyfile(rng, here + extra, layout).encode("utf-8")
         desc.append(f"{nm}:{layout['eol']}{'' if layout['final'] else '/nofinal'}{'/tabs' if layout['tabs'] else ''}"
@@ -403,13 +499,24 @@ def gen_project(rng, known_ok=False):
     if rng.random() < 0.3:
         files["legacy.py"] = b"# caf\xe9 latin-1\nx = set([1, 2])\n"      # undecodable: must stay untouched
         desc.append("legacy.py:latin1")
-    m = rng.random()
-    if m < 0.75:
-        kind = rng.choice(["lf", "lf", "nofinal", "crlf"] if known_ok else ["lf", "lf", "nofinal"])
-        body = ["requests>=2.0", "flask", "# pinned", "click==8.1.7"][:rng.randint(1, 4)]
-        eol = "\r\n" if kind == "crlf" else "\n"
-        files["requirements.txt"] = (eol.join(body) + ("" if kind == "nofinal" else eol)).encode()
-        desc.append(f"requirements.txt:{kind}")
+    if manifest == "requirements.txt":
+        text, d = gen_requirements(rng)
+    elif manifest == "pyproject.toml":
+        text, d = gen_pyproject(rng)
+    elif manifest == "setup.cfg":
+        text, d = gen_setupcfg(rng)
+    elif manifest == "setup.py":
+        # the manifest is itself a source file: codemods of the sequence (not the adders) may have triggers in it
+        trig = [k for k in seq if k not in DEP_ADDING and k in FAST and rng.random() < 0.6]
+        text, d = gen_setup_py(rng, trig)
+    if manifest:
+        if known_ok and rng.random() < 0.3:
+            text, d = text.replace("\n", "\r\n"), d + "/crlf"
+        files[manifest] = text.encode("utf-8")
+        desc.append(f"{d}/{order}")
+        if rng.random() < 0.15 and manifest != "requirements.txt":      # a second, later-ranked manifest
+            files["requirements.txt"] = b"requests>=2.0\n"
+            desc.append("+requirements.txt")
     return files, seq, " ".join(desc)
 
 
@@ -438,12 +545,19 @@ def lossy(text: str) -> bool:
         return False
 
 
-def classify_e2e(ctx, path, before_texts):
+def classify_e2e(ctx, path, before_texts, diffs=()):
     """finding class of a path whose diffs do not describe its change; before_texts: the original text and the text
-    before the failing step (when known)"""
+    before the failing step (when known); diffs: the diffs reported for the path"""
     name = os.path.basename(path)
     if name in MANIFEST_NAMES and any("\r" in t for t in before_texts):
         return "kf_manifest_crlf"
+    # PyprojectWriter diffs text.split("\n"): the empty string after the final newline becomes a diff line of its own
+    # (a bare prefix character without terminator at the very end of the diff) - impossible for lines of splitlines()
+    if name == "pyproject.toml" and any(d.split("\n")[-1] in (" ", "+", "-") for d in diffs):
+        return "kf_pyproject_phantom_line"
+    # SetupCfgWriter inserts after a last line that has no terminator
+    if name == "setup.cfg" and before_texts and before_texts[0] and not before_texts[0].endswith("\n"):
+        return "kf_setupcfg_no_final_newline"
     # only when the source diffs libcst's re-rendering (table value diff_source = FromTrees) can the loss explain it
     from_trees = (ctx.tables or {}).get("diff_source", "FromTrees") == "FromTrees"
     if from_trees and path.endswith(".py") and any(lossy(t) for t in before_texts):
@@ -502,13 +616,13 @@ def check_project(ctx, files, seq, res, desc, e2e_pairs):
         cls = None
         if failed_at is not None:
             i, cm, d = failed_at
-            cls = classify_e2e(ctx, path, [orig_t, cur])
+            cls = classify_e2e(ctx, path, [orig_t, cur], [d for _, d in steps])
             what = (f"{path}: diff #{i + 1} (of {len(steps)}, codemod {cm}) does not apply to the content the previous "
                     f"steps produced ({desc})")
             ctx.violation(cls, what, {**replay, "path": path, "step": i, "codemod": cm, "diff": d, "before": cur,
                                       "expected": "every reported diff applies to the content before its codemod ran"})
         elif ref.norm_nl(cur) != ref.norm_nl(fin_t):
-            cls = classify_e2e(ctx, path, [orig_t])
+            cls = classify_e2e(ctx, path, [orig_t], [d for _, d in steps])
             ctx.violation(cls, f"{path}: the {len(steps)} reported diff(s), applied in order to the original, give "
                                f"{cur[:120]!r}... but the file on disk is {fin_t[:120]!r}... ({desc})",
                           {**replay, "path": path, "observed": fin_t, "expected": cur})
